@@ -133,7 +133,7 @@ def canary(rel: str) -> bytes:
     return hashlib.sha256(rel.encode()).digest() * 2
 
 
-def build_world(root: str) -> dict:
+def build_world(root: str, file_modes: str | None = None) -> dict:
     for d in DIRS:
         os.makedirs(os.path.join(root, d), exist_ok=True)
     for rel in INSIDE_FILES + OUTSIDE_FILES:
@@ -143,6 +143,12 @@ def build_world(root: str) -> dict:
         os.link(os.path.join(root, target), os.path.join(root, link))
     for link, target in SYMLINKS.items():
         os.symlink(target.replace("{ROOT}", root), os.path.join(root, link))
+    # permission bits of the files (a hard link shares them with its target): read-only stores, private keys, ...
+    if file_modes:
+        for rel in INSIDE_FILES + OUTSIDE_FILES:
+            outside = rel in OUTSIDE_FILES
+            mode = {"ro_all": 0o444, "ro_outside": 0o400 if outside else 0o644, "none_outside": 0o000 if outside else 0o644, "exec_all": 0o555}[file_modes]
+            os.chmod(os.path.join(root, rel), mode)
     realbase = os.path.realpath(os.path.join(root, "model"))
     forbidden = {}
     for d, _dirs, files in os.walk(root):
@@ -225,7 +231,7 @@ def gen_case(run_seed: int, tier: str, index: int = 0) -> dict:
     triples = []
     if tier == "thorough" and index < enum_chunks():
         triples = enum_chunk(index)
-        return {"property": PROPERTY, "run_seed": run_seed, "triples": triples, "enumerated_chunk": index}
+        return {"property": PROPERTY, "run_seed": run_seed, "triples": triples, "enumerated_chunk": index, "file_modes": Streams(run_seed).rng("file-modes").choice([None, None, None, "ro_all", "ro_outside", "none_outside", "exec_all"])}
     n = 160
     rf = st.rng("faults")
     for _ in range(n):
@@ -249,7 +255,7 @@ def gen_case(run_seed: int, tier: str, index: int = 0) -> dict:
             triples.append({"level": "load", "model_path": mp, "loc": loc, "entry": r.choice(LOAD_ENTRIES), "off": off, "len": ln, "place": r.choice(PLACES) if r.random() < 0.6 else "main_init", "stat_fault": sf})
         else:
             triples.append({"level": "tensor", "base": r.randrange(len(BASES)), "loc": loc, "entry": r.choice(TENSOR_ENTRIES), "off": off, "len": ln, "stat_fault": sf})
-    return {"property": PROPERTY, "run_seed": run_seed, "triples": triples}
+    return {"property": PROPERTY, "run_seed": run_seed, "triples": triples, "file_modes": Streams(run_seed).rng("file-modes").choice([None, None, None, "ro_all", "ro_outside", "none_outside", "exec_all"])}
 
 
 _ENUM_ENTRIES = ["numpy", "tobytes", "tofile_bytesio", "tofile_real"]
@@ -636,7 +642,9 @@ def _run(case: dict, root: str, res: dict) -> None:
         stats[k] = stats.get(k, 0) + n
 
     root = os.path.realpath(root)
-    world = build_world(root)
+    world = build_world(root, case.get("file_modes"))
+    if case.get("file_modes"):
+        inc("cfg_file_modes_" + case["file_modes"])
     realbase = world["realbase"]
     forbidden = world["forbidden"]
     seam = fsseam.FsSeam(root)
